@@ -259,8 +259,8 @@ def word_kw_class(a, w, s, loc, l, r):
         if i < 0 or i >= len(s):
             return "edge"
         return ("B" if s[i] in body else "b") + ("W" if _isw(s[i]) else "w")
-    first = "W" if _isw(s[loc]) else "w"
-    last = "W" if _isw(s[full - 1]) else "w"
+    first = ("W" if _isw(s[loc]) else "w") if loc < len(s) else "-"
+    last = ("W" if _isw(s[full - 1]) else "w") if full - 1 < len(s) else "-"
     ro = "R0" if r is None else ("R=" if r == full else "R<")
     lo = "L0" if l is None else ("L=" if l == full else "L<")
     return "word-askw:%s|%s%s|%s:%s%s" % (side(loc - 1), first, last, side(full), ro, lo)
@@ -496,14 +496,14 @@ def oneof_family(ctx):
     # --- model vs implementation
     mlists = [l for i, l in enumerate(lists) if ctx.thorough or i % 3 == 0]
     al_m = "abAB.-"
-    strs = strings(al_m, 2 if not ctx.thorough else 3)
-    pre = PRE + ("Definition strs := strings_upto %s %d.\n"
+    strs = strings(al_m, 2) + ([x for x in strings("ab.", 3) if len(x) == 3] if ctx.thorough else [])
+    pre = PRE + ("Definition strs := strings_upto %s 2 ++ %s.\n"
                  "Definition runo (cl : bool) (syms : list str) := match reorder cl syms with None => (false, [], REps, REps, [], []) | Some l => "
                  "(true, l, oneof_regex cl false l, oneof_regex cl true l, "
                  "map (fun s => map (fun i => enc (oneof_regex_path cl false l s i) + 8 * enc (match match_first cl l s i with Some w => Some (i + length w) | None => None end) "
                  " + 64 * enc (oneof_regex_path cl true l s i) + 512 * enc (match match_first_kw cl l s i with Some w => Some (i + length w) | None => None end)) (seq 0 (S (length s)))) strs, "
                  "map (fun s => map (fun i => match match_first cl l s i with Some w => w | None => [] end) (seq 0 (S (length s)))) strs) end.\n"
-                 % (cs(al_m), 2 if not ctx.thorough else 3))
+                 % (cs(al_m), ("strings_exact %s 3" % cs("ab.")) if ctx.thorough else "[]"))
     exprs, keys = [], []
     for syms in mlists:
         for cl in (False, True):
